@@ -31,8 +31,8 @@ CLAIMED = {
             'Discharges the history quantifier by induction: each of the ~90 container operations, from ANY argument state satisfying the container invariants, makes only in-extent accesses, uses/frees nothing after release, copies deeply and re-establishes the invariants with the updated counts; out-of-range index arguments reach an error path before any subscript. Also decides that every newly exposed cell (in storage the operation allocated) is stored to before return, so no cell below the counts is indeterminate. Which value a cell gets (old value preserved / zero), allocator failure and string contents are NOT decided.',
             'Trusted: clang AST; container invariants assumed at entry and re-proved at exit; distinct parameters do not alias; LP64. UNDECIDED obligations are counted in the evidence and never alarm.',
             'DESIGN.md 2/E1, 3/C14, Appendix C'),
-    'C19': ('dims+spline', 'other', 'units-of-measure inference (dimensions X^a Y^b, linear system over Q) plus statement-level computer algebra: array stores read as rational functions of symbolic cells with a symbolic index, recognition of the Thomas elimination / back-substitution recurrences, polynomial normalisation of the spline conditions; nothing is executed, no loop unrolled',
-            'Decides in exact arithmetic: unit independence (dimensional homogeneity); the spline passes through every point, has a continuous second derivative, solves exactly the first-derivative-continuity system (one multiplier per eliminated row, covering back substitution, reads inside defined ranges), has zero second derivative at both ends, reproduces straight lines, and is evaluated as the cubic of the piece whose own range guard holds; every trapezoid term is the exact integral of its segment and the area is the plain sum over all consecutive segments (additive). Floating-point rounding, non-increasing abscissae and the simplex minimiser are NOT decided.',
+    'C19': ('dims+spline+simplex', 'other', 'units-of-measure inference (dimensions X^a Y^b, linear system over Q) plus statement-level computer algebra: array stores read as rational functions of symbolic cells with a symbolic index, recognition of the Thomas elimination / back-substitution recurrences, polynomial normalisation of the spline conditions; pairing typestate over the Nelder-Mead table; nothing is executed, no loop unrolled',
+            'Decides in exact arithmetic: unit independence (dimensional homogeneity); the spline passes through every point, has a continuous second derivative, solves exactly the first-derivative-continuity system (one multiplier per eliminated row, covering back substitution, reads inside defined ranges), has zero second derivative at both ends, reproduces straight lines, and is evaluated as the cubic of the piece whose own range guard holds; every trapezoid term is the exact integral of its segment and the area is the plain sum over all consecutive segments (additive); in the simplex minimiser every stored value is the objective at its own row, the reported value is the objective at the returned point (row 0 after an ascending whole-row sort) and the best vertex is never overwritten, so the result is never worse than the best initial vertex. Floating-point rounding, non-increasing abscissae and convergence of the minimiser are NOT decided.',
             'Trusted: clang AST; seeds (column 0 = X, column 1 = Y, abscissa vector X, prediction Y); literal 0 polymorphic, other literals dimensionless under +,-,compare; sentinel tests against MISSING exempt; Thomas algorithm correctness and real arithmetic. A sweep/back-substitution shape that is not recognised is ANALYSIS-BROKEN (exit 2), never a pass.',
             'DESIGN.md 2/E11, 3/C19, 10.6 (E12)'),
     'C10': ('guards', 'other', 'control-dependence (guard dominance) analysis with structural recognition of the ApproxEq/MISSING idioms: zero-divisor guard with zero-store arm, not-missing guard over element reads and counters; option-dispatch exhaustiveness and delegation shape',
